@@ -10,7 +10,9 @@ GENS = [("Macros", "gen_macros"), ("LoadStore", "gen_loadstore")]
 CFG = {
     "C05": {"modules": ["W2c2Verif.Props.C05"], "names": gl.PLAIN[0] + gl.PLAIN[1], "aligned": False,
             "trusted": ["memcpy between an object and memory assembles the object's value per host byte order (C object representation); out-of-bounds accesses are outside the property"]},
-    "C16": {"modules": ["W2c2Verif.Props.C16", "W2c2Verif.Props.C16Conc", "W2c2Verif.Props.C16Emit"], "names": gl.ATOMIC_LOADS + gl.ATOMIC_STORES + gl.rmw_names(), "aligned": True,
+    # C16 holds on every host: the big-endian variants of DEFINE_ATOMIC_* (same anchors) are covered by C19's BE=LE theorems for the
+    # atomic accessors (Props.C19: loads/stores, Props.C19Rmw: rmw/cmpxchg) and by the forced-BE runs below
+    "C16": {"modules": ["W2c2Verif.Props.C16", "W2c2Verif.Props.C16Conc", "W2c2Verif.Props.C16Emit", "W2c2Verif.Props.C19", "W2c2Verif.Props.C19Rmw"], "names": gl.ATOMIC_LOADS + gl.ATOMIC_STORES + gl.rmw_names(), "aligned": True,
             "trusted": ["each __atomic_* builtin is ONE indivisible, sequentially consistent memory step on a naturally aligned cell (gcc/clang + hardware; assumed, exercised by a TSan stress run in the thorough tier)"]},
     "C19": {"modules": ["W2c2Verif.Props.C19", "W2c2Verif.Props.C19Rmw", "W2c2Verif.Props.C19Buf", "W2c2Verif.Props.C19Wasi", "W2c2Verif.Props.C19Futex"], "names": gl.PLAIN[0] + gl.PLAIN[1] + gl.ATOMIC_LOADS + gl.ATOMIC_STORES + gl.rmw_names(), "aligned": True,
             "trusted": ["no big-endian host or emulator exists in the image: the theorems are about the regenerated BE bodies with End.be; the real BE bodies are executed only in the forced-BE-on-this-LE-host configuration (model instantiated with body=be, host=le)"]},
@@ -71,7 +73,7 @@ def run(tier, PROP):
         repo = vlib.copy_repo(os.path.join(d, "repo"))
         try:
             exe_le = mo.build(repo, d, big_endian=False)
-            exe_be = mo.build(repo, d, big_endian=True) if PROP == "C19" else None
+            exe_be = mo.build(repo, d, big_endian=True) if PROP in ("C19", "C16") else None
         except Exception as e:
             broken.append({"kind": "harness-build", "msg": str(e)[-1500:]})
             exe_le = exe_be = None
